@@ -176,13 +176,15 @@ func vfC05Handlers(rec *evid.Rec, ep int) {
 	}
 	useNow("MNT", root, "/")
 	for i := 0; i < 30; i++ {
-		// the root handle itself may have been evicted by now; re-mount when needed
-		if r, _ := c.getattr(root); r == nil || r.Status != 0 {
+		// the root handle may have been evicted by now - and its value may even have been
+		// reissued for another directory (C06's finding) - so it is obtained afresh every time
+		nr, err := c.mnt("/")
+		if err != nil {
+			return
+		}
+		if nr != root {
 			ops = append(ops, "MNT / (again)")
-			root, err = c.mnt("/")
-			if err != nil {
-				return
-			}
+			root = nr
 			useNow("MNT", root, "/")
 		}
 		switch rng.Intn(5) {
@@ -247,6 +249,7 @@ func TestVerif_C06(t *testing.T) {
 	for ep := 0; ep < hh && rec.Violations() < 30; ep++ {
 		vfC06Handlers(rec, ep)
 	}
+	rec.Sample(map[string]any{"direct": "Allocate/Get/Release/ReleaseAll histories; every value ever returned is kept and replayed", "handlers": "LOOKUP of 2*max files, READ through every old value, Unexport/Export, Release", "max_values": []int{1, 2, 3, 5, 10, 64}})
 }
 
 func vfC06Direct(rec *evid.Rec, ep int) {
